@@ -14,7 +14,7 @@ from rac import base  # noqa: F401  (numpy shim first)
 from rac.base import Recorder, digest, tmpdir
 from rac import ih5hist as H
 
-QUICK_BUDGET_S = 52.0
+QUICK_BUDGET_S = 57.0
 THOROUGH_BUDGET_S = 560.0
 MINIMISE_PER_KIND = 1
 
@@ -26,7 +26,8 @@ def _fns(fail, op):
     if k in ("tree-mismatch", "visit-mismatch", "reopen-mismatch", "read-crash"):
         w = [H.FN[op[0]]] if op[0] in H.FN else []
         # newly created data hidden -> the writer first; stale data visible / crash -> the read kernel first
-        return w + [H.FN_CHILDREN] if (fail.get("cls") or "").startswith("missing") and "kind" not in fail["cls"] else [H.FN_CHILDREN] + w
+        writer_first = op[0] in ("copy", "move") or ((fail.get("cls") or "").startswith("missing") and "kind" not in fail["cls"])
+        return w + [H.FN_CHILDREN] if writer_first else [H.FN_CHILDREN] + w
     if op[0] in H.FN:
         return [H.FN[op[0]]]
     return []
@@ -69,6 +70,8 @@ class Collector:
                 hmin, fmin = list(history[: f["idx"] + 1]), f
         sig = _signature(fmin, hmin)
         sigs.append(sig)
+        if f["kind"] == "hang" and hmin != list(history[: f["idx"] + 1]):
+            fmin = dict(fmin, what=fmin["what"] + f" (before minimisation, history {list(history[: f['idx'] + 1])} exceeded the full {H.OP_TIMEOUT_S}s watchdog)")
         self.rec.check(False, sig, f"[{phase}] minimal history {hmin}: {fmin['what']}", case={"history": hmin, "kind": fmin["kind"]}, fns=_fns(fmin, fmin["op"]))
 
 
@@ -101,13 +104,13 @@ def run(tier: str, seed: int) -> dict:
     bound_parts, notes = [], rec.notes
     pool = H.Pool()  # fork before this process opens any HDF5 file
     try:
-        with tmpdir() as root:
+        with tmpdir() as root, pool:  # the pool is terminated before the temp dir is removed
             col = Collector(rec, root)
             col.confirm_hangs = not quick  # quick: the un-minimised history was seen to hang for the full 10 s
             # ---- 1. curated multi-container scenarios (always)
             others = [n for n in H.SCENARIOS if n not in H.SELFCOPY_SCENARIOS]
             _run_scenarios(col, others)
-            sc = H.SELFCOPY_SCENARIOS if not quick else H.SELFCOPY_SCENARIOS[:2]
+            sc = H.SELFCOPY_SCENARIOS
             hung = _run_scenarios(col, sc)
             selfcopy = not hung
             if hung:
@@ -129,6 +132,8 @@ def run(tier: str, seed: int) -> dict:
                 r = H.bfs(pool, root, keys, level, max_len, max_cont, deadline, check=True, selfcopy=selfcopy, on_result=on_result, seed=seed)
                 lv = "; ".join(f"len {x['len']}: {x['expanded_states']}/{x['of']} states expanded, {x['successors']} successors, {x['new_states']} new states, {x['wall_s']}s" for x in r["levels"])
                 part = f" (length {r['partial']['len']} only partially: {r['partial']['expanded_states']}/{r['partial']['of']} frontier states, time budget)" if r["partial"] else ""
+                if r["crashes"]:
+                    notes.append(f"BFS[{label}]: {len(r['crashes'])} harness task crashes (states not expanded), first: {r['crashes'][0][-400:]}")
                 bound_parts.append(f"BFS[{label}] keys {keys}, alphabet level {level}, depth<=3 paths, <= {max_cont} containers: all histories of length <= {r['complete_len']} exhaustively up to state de-duplication{part} [{lv}]; {len(r['states'])} distinct physical states")
                 return r
 
@@ -147,6 +152,10 @@ def run(tier: str, seed: int) -> dict:
                     tasks = [{"seed": seed, "idx": wi + j, "length": 40, "keys": H.KEYS_ALL, "max_containers": 8, "root": str(root), "selfcopy": selfcopy} for j in range(pool.n * 2)]
                     wi += len(tasks)
                     for res in pool.map(H.random_walk, tasks):
+                        if res.get("crash"):
+                            if sum("walk crashed" in n for n in notes) < 2:
+                                notes.append(f"walk crashed (harness): {res['crash'][-400:]}")
+                            continue
                         nwalk += 1
                         col.add_pass(res["evals"] - len(res["fails"]))
                         for i in range(res["steps"]):
